@@ -569,7 +569,16 @@ class PrecipitateModel (PrecipitateBase):
             growthRate = np.zeros(self.PBM[p].bins + 1)
             return growthRate, xEqAlpha, xEqBeta
 
-        growth_result = self.therm.getGrowthAndInterfacialComposition(xComp, T, dGs[p] * self.precipitateParameters[p].volume.Vm, self.PBM[p].PSDbounds, self.particleGibbs(phase=self.precipitateParameters[p].phase), precPhase=self.precipitateParameters[p].phase, removeCache=self.removeCache, searchDir = self._precBetaTemp[p])
+        #Y.drivingForce is the volumetric driving force (chemical driving force / Vm - strain energy, see volumetricDrivingForce)
+        #The Gibbs-Thomson term from particleGibbs already contains the strain energy, so the growth model is given the
+        #chemical driving force (otherwise the strain energy is subtracted twice and the growth rate does not change sign
+        #at the critical radius used for nucleation)
+        precParams = self.precipitateParameters[p]
+        aspectRatio = precParams.shapeFactor.aspectRatio(self.pData.Rcrit[self.pData.n, p])
+        strainEnergy = precParams.strainEnergy.compute(precParams.shapeFactor.description.normalRadii(aspectRatio))
+        chemDG = (dGs[p] + strainEnergy) * precParams.volume.Vm
+
+        growth_result = self.therm.getGrowthAndInterfacialComposition(xComp, T, chemDG, self.PBM[p].PSDbounds, self.particleGibbs(phase=precParams.phase), precPhase=precParams.phase, removeCache=self.removeCache, searchDir = self._precBetaTemp[p])
 
         #If two-phase equilibrium not found, two possibilities - precipitates are unstable or equilibrium calculations didn't converge
         #We try to avoid this as much as possible to where if precipitates are unstable, then attempt to get a growth rate from the nearest composition on the phase boundary
